@@ -250,6 +250,46 @@ Theorem query_agreement_refuted :
 Proof. exact api_refuted. Qed.
 Print Assumptions query_agreement_refuted.
 
+(* is_marked with a list of markings (outside the property text, which speaks of one marking M): the
+   granular function demands ALL of them, the object-level function ANY -- both docstrings say ANY.
+   Stated here so that the behaviour is pinned; the correspondence run covers the dispatching mixture. *)
+Theorem is_marked_many_granular : forall c o ms sels i d b res,
+  ms <> [] -> (forall m, In m ms -> nonempty m = true) ->
+  g_is_marked c o ms sels i d = Ok b ->
+  g_get_markings c o sels i d true true = Ok res ->
+  (b = true <-> forall m, In m ms -> In m res).
+Proof. exact g_is_marked_many. Qed.
+Print Assumptions is_marked_many_granular.
+
+Theorem is_marked_many_object : forall o ms, ms <> [] ->
+  (o_is_marked o ms = true <-> exists m, In m ms /\ In m (omr_list o)).
+Proof. exact o_is_marked_many. Qed.
+Print Assumptions is_marked_many_object.
+
+(* is_marked without a marking = "get_markings reports something", when every granular marking carries an
+   identifier (labelled; true after every mutator: compress_labelled) *)
+Theorem is_marked_none : forall c o sels i d b res,
+  labelled (gms_list o) ->
+  g_is_marked c o [] sels i d = Ok b ->
+  g_get_markings c o sels i d true true = Ok res ->
+  (b = true <-> res <> []).
+Proof. exact g_is_marked_none. Qed.
+Print Assumptions is_marked_none.
+
+Theorem compress_labelled : forall gs, labelled (olist (compress_markings gs)).
+Proof. exact MarkingsC07Query.compress_labelled. Qed.
+Print Assumptions compress_labelled.
+
+(* the API functions dispatch on `selectors is None` and nothing else *)
+Theorem dispatch : forall c o m ss r l i d,
+  add_markings c o m (Some ss) = g_add_markings c o m ss /\ add_markings c o m None = o_add_markings c o m /\
+  remove_markings c o m (Some ss) = g_remove_markings c o m ss /\ remove_markings c o m None = o_remove_markings c o m /\
+  clear_markings c o (Some ss) r l = g_clear_markings c o ss r l /\ clear_markings c o None r l = o_clear_markings c o /\
+  set_markings c o m (Some ss) r l = g_set_markings c o m ss r l /\ set_markings c o m None r l = o_set_markings c o m /\
+  get_markings c o None i d r l = Ok (omr_list o) /\ is_marked c o m None i d = Ok (o_is_marked o m).
+Proof. exact MarkingsC07Query.dispatch. Qed.
+Print Assumptions dispatch.
+
 (* ---- inherited and descendant lookups follow the path tree ---- *)
 
 Theorem get_pairs : forall c o sels i d res m,
